@@ -131,6 +131,12 @@ func runC12(r *Run) {
 	checkCallbackPaths(r, sl, m, k)
 	sl.Done()
 
+	// ---- no re-entrant completion: a transaction object completed twice is put into the pool twice and
+	// then serves two transactions at once (the response for one ID reaches the other's handler)
+	re := r.Rule("C12.reenter", "the agent callback calls a handler-invoking agent method only while the transaction is not registered in the client table (shared with C10.reenter): no object is completed and recycled twice", 1)
+	checkReenter(r, re, m, k)
+	re.Done()
+
 	// ---- reader
 	rd := r.Rule("C12.reader", "the reader hands a message to the agent only on the success edge of ReadFrom (read + decode) of that same message; undecodable datagrams are dropped", 1)
 	{
@@ -270,6 +276,37 @@ func runC12(r *Run) {
 				pl.Violation(fn, fn.Pos(), "field "+fv.Name()+" not cleared", "a pooled object keeps the previous transaction's "+fv.Name())
 			}
 		}
+	}
+	// in Start a transaction object goes back to the pool only if it was never published: once it has
+	// been in the client table the reader or the collector may already have completed and recycled it
+	{
+		fn := m.Start
+		rep := map[ssa.Instruction]bool{}
+		q := &PathQuery{P: p, Fn: fn}
+		q.Step = func(in ssa.Instruction, deferred bool, st uint64, c *PathCtx) (uint64, bool) {
+			call, ok := in.(*ssa.Call)
+			if !ok {
+				return st, false
+			}
+			if callsFn(call, m.Reg) {
+				return st | 1, false
+			}
+			if callsFn(call, m.Put) {
+				var reg *ssa.Call
+				eachInstr(fn, func(b *ssa.BasicBlock, i int, x ssa.Instruction) {
+					if cx, isC := x.(*ssa.Call); isC && callsFn(cx, m.Reg) {
+						reg = cx
+					}
+				})
+				if st&1 != 0 && (reg == nil || c.NilState(reg) != -1) && !rep[in] {
+					rep[in] = true
+					pl.ViolationPath(fn, instrPos(in), "put of a published transaction in Start", "the object was registered in the client table: the reader or collector may complete and recycle it concurrently, so it ends up in the pool twice and two later transactions share it (responses cross-delivered)", c.Witness(fn, in))
+				}
+			}
+			return st, false
+		}
+		q.Run()
+		pl.Instance("Start|put only while unpublished", true, nil)
 	}
 	pl.Done()
 
